@@ -30,7 +30,8 @@ def run(replay=None):
     box = " ".join(f2h(v) for v in meshgen.BOX3)
     progs = []
     for k in range(40 if quick else 800):
-        p = meshgen.closed_solid(rng, f"w{k}")
+        # (every eighth shape is an angular one: atan2 in the field, surface in all four quadrants of its arguments)
+        p = meshgen.gear_solid(rng, f"w{k}") if k % 8 == 7 else meshgen.closed_solid(rng, f"w{k}")
         p.qs = []
         for alg in (0, 0, 1, 2):
             for _ in range(1 if quick else 2):
@@ -38,8 +39,13 @@ def run(replay=None):
                 mf = rng.choice([0.3, 0.22, 0.4, 0.18] if alg == 0 else [0.45, 0.35, 0.6])
                 # the volume tree only accelerates dual contouring; resolutions: same as the mesh, x2, x4
                 vol = rng.choice([0, 1, 2, 3, 1, 2]) if alg == 0 else rng.choice([0, 0, 2])
+                probes = 60
+                if k % 8 == 7:
+                    # angular shapes: finer, with many more winding probes (a pruning error of the interval
+                    # arithmetic in one quadrant moves the winding number at a few deep points only)
+                    mf, probes = rng.choice([0.1, 0.08, 0.12]), 500
                 p.qs.append((alg, workers, mf, vol, p.ncmd + 1))
-                p.emit(f"mesh {p.root} {alg} {workers} {f2h(mf)} {box} {f2h(1e-8)} {rng.randrange(1 << 30)} {vol}")
+                p.emit(f"mesh {p.root} {alg} {workers} {f2h(mf)} {box} {f2h(1e-8)} {rng.randrange(1 << 30)} {vol} {probes}")
         progs.append(p)
     exe_h = os.path.join(common.BUILD, "cxx", "bin", "expr")
     hout, hskip = common.run_cases_sharded(exe_h, [p.text() for p in progs], shards=8, timeout=1800, single_timeout=600)
